@@ -108,7 +108,7 @@ def modinfo(pid):
     d = {}
     for node in tree.body:
         if isinstance(node, ast.Assign) and len(node.targets) == 1 and isinstance(node.targets[0], ast.Name) \
-                and node.targets[0].id in ("RULE", "LEVEL", "ASSUMPTIONS"):
+                and node.targets[0].id in ("RULE", "RULE_ADDED", "LEVEL", "ASSUMPTIONS"):
             d[node.targets[0].id] = eval(compile(ast.Expression(node.value), path, "eval"), {})
     return d
 
@@ -123,6 +123,7 @@ def main():
         if pid in CLAIMED and info:
             tech, why = CLAIMED[pid]
             rule = " ".join(info["RULE"].split())
+            added = " ".join(info.get("RULE_ADDED", "").split())
             checks.append({
                 "property_id": pid,
                 "quick_cmd": "./check %s --tier quick" % pid,
@@ -133,7 +134,7 @@ def main():
                 "level_claimed": {
                     "category": info["LEVEL"],
                     "text": ("Bounded-exhaustive exploration of the real implementation (no sampling): %s.  "
-                             "Enumerated space and oracle: %s" % (why, rule[:1400])),
+                             "Enumerated space and oracle: %s%s" % (why, rule[:1400], ("  " + added[:700]) if added else "")),
                     "design_ref": "DESIGN.md §5 %s, §11" % pid},
                 "level_note": ("Both tiers enumerate their stated lattice completely (evidence.coverage.exhaustive); "
                                "thorough = larger bounds. Assumed / trusted: "
